@@ -1,10 +1,12 @@
 # configuration of ./check for property C05 (see props_config.py)
 CONFIG = {'gen': ['SmbCommands'],
- 'drivers': ['Smb', 'SmbDialects'],
+ 'drivers': ['Smb'],
  'rule': 'cases = for each of the 114 factory-reachable command structures: field assignments with pairwise distinct bytes in every '
-         'integer (so byte order is observable) and boundary-biased random ones -> the bytes the real Marshal emits vs the bytes of the '
-         'MS-CIFS encoder written in Lean from the declared field list (Spec/Cifs.lean). distinct = distinct line; non-trivial = the '
-         'implementation produced bytes Header: smb.hdr = Header.Marshal on explicit values of every header field (boundary-biased, byte-distinct) against the 32-byte MS-CIFS 2.2.3.1 layout written in the specification.',
+         'integer (so byte order is observable) and boundary-biased random ones, AndX commands with an AndX block set through SetAndX in '
+         'two cases of three -> the bytes the real Marshal emits vs the bytes of the MS-CIFS encoder written in Lean from the declared '
+         'field list (Spec/Cifs.lean). distinct = distinct line; non-trivial = the implementation produced bytes Header: smb.hdr = '
+         'Header.Marshal on explicit values of every header field (boundary-biased, byte-distinct) against the 32-byte MS-CIFS 2.2.3.1 '
+         'layout written in the specification.',
  'assumptions': ['the declared Go field types are taken as the transcription of MS-CIFS (the MS-CIFS PDF in the repository is empty in '
                  'this sandbox)',
                  'which declared fields live in the parameter block and which in the data block is read off the extracted marshal program'],
@@ -20,10 +22,12 @@ CONFIG = {'gen': ['SmbCommands'],
               'correspondence on all 114 commands',
  'level_text': 'For all field values and every command whose regenerated marshal program passes the static predicate Conforms, the bytes '
                'Marshal emits are the bytes of an independent MS-CIFS encoder written from the declared field list whenever that encoder '
-               "speaks (conforms_sound; conforms_sound_at / conforms_sound_std for the library's own nested encoders outside the two "
-               'recorded findings; param_block_eq_spec, data_block_eq_spec, andx_default_block for WordCount/Words/ByteCount(LE)/Bytes and '
-               'the AndX block). The kernel decides Conforms on the 115 regenerated programs: all conform except WriteRequest (data buffer '
-               'ahead of the parameter block) and six structures that never emit a declared field (non_conforming_commands, '
+               "speaks (conforms_sound; conforms_sound_at / conforms_sound_std for the library's own nested encoders outside the three "
+               'recorded findings; param_block_eq_spec, data_block_eq_spec for WordCount/Words/ByteCount(LE)/Bytes; andx_default_block, '
+               'andx_block_eq_spec for the AndX block: command, reserved, offset as MS-CIFS has them unless the two bytes of the offset '
+               'differ — the offset goes out big-endian, finding be:AndXOffset, andx_offset_big_endian_counterexample, '
+               'andx_offset_differs_iff). The kernel decides Conforms on the 115 regenerated programs: all conform except WriteRequest '
+               '(data buffer ahead of the parameter block) and six structures that never emit a declared field (non_conforming_commands, '
                'core_non_conforming_commands, commands_dropping_fields: LockAndReadResponse.Reserved, NegotiateRequest.WordCount, '
                'NegotiateResponse.ServerName, OpenAndxResponse.NMPipeStatus/Reserved, QueryInformationResponse.Reserved, '
                'ReadResponse.Reserved); ten programs with loops or conditional fields lie outside the theorem '
